@@ -12,6 +12,8 @@ RULE = ("cases = (hash, v, r, s) tuples driven through ecdsa_raw_recover on the 
         "(own square root with explicit parity, affine arithmetic): where the model refuses the library must raise ValueError, where the "
         "model returns Q the library must return exactly Q ((0,0) for the identity) and (r, s) must verify for Q; "
         "grid v x r x s x hash from the property's quantifier plus sign-derived high-s/swapped-v signatures and the constructed identity case; "
+        "W4: the module constants P, N, A, B, G are rebound to small prime-order curves with P = 3 mod 4 and EVERY (v, r, s, z) with "
+        "0 <= r < P, 0 <= s <= 2N, 0 <= z <= N+1 goes through the unchanged function (r in [N, P), r or s = 0 mod N, non-residues, identity result all occur); "
         "distinct = distinct (hash, v, r, s); non-trivial = every case (the suite has one recover call)")
 ASSUMPTIONS = ["r >= P and negative r/s are outside the statement and not generated"]
 P, N = MS.P, MS.N
@@ -23,7 +25,7 @@ def shards(tier):
 
 def required_classes(tier):
     return ["refuse:v", "refuse:r=0 mod N", "refuse:s=0 mod N", "refuse:r not an x-coordinate", "return", "return:r>=N", "return:s>=N",
-            "return:identity", "return:high-s", "r=N"]
+            "return:identity", "return:high-s", "r=N", "W4:exhaustive"]
 
 
 def one(rec, s, h, v, r, sv, tag=None):
@@ -119,6 +121,7 @@ def run(rec):
         if r % N == 0:
             continue
         one(rec, s, z.to_bytes(32, "big"), 27 + (R[1][0] & 1), r, sv)
+    w4_small_curves(rec, s, quick)
     # random fill
     for _ in range(1500 if quick else 300000):
         i += 1
@@ -128,7 +131,89 @@ def run(rec):
         one(rec, s, rng.randbytes(rng.choice([32, 32, 8, 48])), rng.choice([27, 28, 27, 28, 0, 29]), r, rng.choice([rng.randrange(0, N), rng.getrandbits(260)]))
 
 
+def small_curve_recover(ctx, z, v, r, sv):
+    """The recovery oracle on an arbitrary short-Weierstrass curve of prime order (model arithmetic only)."""
+    E, N_, P_ = ctx.E, ctx.N, ctx.P
+    if v not in (27, 28):
+        return ("refuse", "v")
+    if r % N_ == 0:
+        return ("refuse", "r=0 mod N")
+    if sv % N_ == 0:
+        return ("refuse", "s=0 mod N")
+    Rp = None
+    for Pt in E.lift_x((r % P_,)):
+        if (Pt[1][0] & 1) == (0 if v == 27 else 1):
+            Rp = Pt
+    if Rp is None:
+        return ("refuse", "r not an x-coordinate")
+    T = E.add(E.mul_affine(Rp, sv % N_), E.neg(E.mul_affine(ctx.G, z % N_)))
+    return ("point", E.mul_affine(T, pow(r % N_, -1, N_)) if T is not None else None)
+
+
+def w4_small_curves(rec, s, quick):
+    """ecdsa_raw_recover with the module constants rebound to small prime-order curves (P = 3 mod 4, as the library's
+    square root requires): EVERY (v, r, s, z) with 0 <= r < P, 0 <= s <= 2N, 0 <= z <= N+1 -- including r in [N, P),
+    r = 0 mod N, s = 0 mod N, x-coordinates with no point and the identity result -- through the unchanged function."""
+    from .c18 import small_prime_order_curves
+    saved = {k: getattr(s, k) for k in ("P", "N", "A", "B", "Gx", "Gy", "G")}
+    curves = [cv for cv in small_prime_order_curves(23 if quick else 47, per_p=2) if cv[0] % 4 == 3]
+    try:
+        for ci, (p, A_, B_, n, g, pts) in enumerate(curves):
+            if not rec.mine(ci):
+                continue
+            s.P, s.N, s.A, s.B, s.Gx, s.Gy, s.G = p, n, A_, B_, g[0][0], g[1][0], (g[0][0], g[1][0])
+            ctx = mon.Ctx(p, A_, B_, n, g)
+            mon.set_ctx(ctx)
+            # substitution self-check: 2G through the library equals the model's
+            st, two = call(s.multiply, (g[0][0], g[1][0]), 2)
+            exp2 = ctx.E.add(g, g)
+            if st != "ok" or tuple(two) != ((0, 0) if exp2 is None else (exp2[0][0], exp2[1][0])):
+                rec.unavailable.append("W4: rebinding secp256k1 constants had no effect (p=%d A=%d B=%d)" % (p, A_, B_))
+                continue
+            cnt = 0
+            for v in (27, 28, 26, 29):
+                for r in range(p):
+                    for sv in range(0, 2 * n + 1):
+                        for z in range(0, n + 2):
+                            h = bytes([z])
+                            kind, val = small_curve_recover(ctx, z, v, r, sv)
+                            st, got = call(s.ecdsa_raw_recover, h, (v, r, sv))
+                            cnt += 1
+                            case = {"fn": "recover/W4", "curve": [p, A_, B_, n, g[0][0], g[1][0]], "z": z, "v": v, "r": r, "s": sv}
+                            if kind == "refuse":
+                                rec.check("B-recover", st == "exc" and isinstance(got, ValueError), "W4:refuse", "small curve p=%d: recover must raise ValueError (%s) but %s" % (
+                                    p, val, "returned %r" % (got,) if st == "ok" else "raised %r" % (got,)), case=case, facts={"fn": "recover", "kind": "missing-refusal" if st == "ok" else "wrong-exception", "reason": val, "w4": True})
+                            else:
+                                exp = (0, 0) if val is None else (val[0][0], val[1][0])
+                                rec.check("B-recover", st == "ok" and tuple(got) == exp, "W4:return", "small curve p=%d: recover returned %r, the determined key is %r" % (p, got, exp),
+                                          case=case, facts={"fn": "recover", "kind": "value", "w4": True}, expected=exp, observed=got if st == "ok" else repr(got))
+            rec.classes["W4:exhaustive"] += cnt
+            rec.count_distinct(cnt)
+            rec.exhaustive_space("ecdsa_raw_recover on y^2 = x^3 + %dx + %d over GF(%d), N = %d: every v in {26..29}, 0 <= r < P, 0 <= s <= 2N, 0 <= z <= N+1" % (A_, B_, p, n), cnt)
+    finally:
+        for k, v in saved.items():
+            setattr(s, k, v)
+        mon.set_ctx(mon.Ctx(MS.P, 0, 7, MS.N, MS.G))
+
+
 def replay(rec, case):
     import_all()
     import py_ecc.secp256k1.secp256k1 as s
+    if case.get("fn") == "recover/W4":
+        p, A_, B_, n, gx, gy = case["curve"]
+        saved = {k: getattr(s, k) for k in ("P", "N", "A", "B", "Gx", "Gy", "G")}
+        try:
+            s.P, s.N, s.A, s.B, s.Gx, s.Gy, s.G = p, n, A_, B_, gx, gy, (gx, gy)
+            ctx = mon.Ctx(p, A_, B_, n, ((gx,), (gy,)))
+            kind, val = small_curve_recover(ctx, case["z"], case["v"], case["r"], case["s"])
+            st, got = call(s.ecdsa_raw_recover, bytes([case["z"]]), (case["v"], case["r"], case["s"]))
+            if kind == "refuse":
+                rec.check("B-recover", st == "exc" and isinstance(got, ValueError), "W4:refuse", "must raise ValueError (%s), got %r" % (val, got))
+            else:
+                exp = (0, 0) if val is None else (val[0][0], val[1][0])
+                rec.check("B-recover", st == "ok" and tuple(got) == exp, "W4:return", "returned %r, determined key %r" % (got, exp))
+        finally:
+            for k, v in saved.items():
+                setattr(s, k, v)
+        return
     one(rec, s, case["hash"], case["v"], case["r"], case["s"])
